@@ -10,6 +10,7 @@
 -/
 import EmitModel.Lemmas.EncodeFile
 import EmitModel.Lemmas.EncodeOtlp
+import EmitModel.Model.Term
 
 namespace EmitModel.C13
 open EmitModel.Encode EmitModel.Json EmitModel.Level
@@ -99,23 +100,6 @@ theorem file_fixed_fields (e : Event) (j : Json) (h : fileRecord e = some j) :
       unfold fixedFields
       simp [hx]
 
-def fixedNames : List String := ["ts_start", "ts", "mdl", "msg", "tpl"]
-
-theorem reservedKey_iff (k : String) : reservedKey k = true ↔ k ∈ fixedNames := by
-  unfold reservedKey fixedNames
-  simp [Bool.or_eq_true]
-  constructor
-  · rintro ((((h | h) | h) | h) | h) <;> simp [h]
-  · rintro (h | h | h | h | h) <;> simp [h]
-
-theorem fixedFields_keys (e : Event) : ∀ k ∈ keys (fixedFields e), k ∈ fixedNames := by
-  unfold fixedFields fixedNames
-  cases e.extent <;> simp [keys]
-
-theorem fixedFields_nodup (e : Event) : (keys (fixedFields e)).Nodup := by
-  unfold fixedFields
-  cases e.extent <;> simp [keys]
-
 /-- The member names of a record are pairwise distinct — for every event, including those with duplicate
     property keys and with properties named like a built-in field (F2, repaired: such a property is skipped). -/
 theorem file_members_unique (e : Event) (ms : List (String × Json))
@@ -195,6 +179,14 @@ theorem any_value_wide_int (i : Int) (h : inI64 i = false) : anyValue (.int i) =
 theorem any_value_i64 (i : Int) (h : inI64 i = true) : anyValue (.int i) = .ok (.int i) := by
   simp [anyValue, h]
 
+/-- STRUCTURE PRESERVED: every value OTLP can express — null, strings, booleans, 64-bit integers, doubles (bit for
+    bit), byte strings, arrays (element by element, `null` elements included) and string-keyed maps (entry by
+    entry, in order), nested to any depth (`embed`, Lemmas/EncodeOtlp.lean) — goes through the any-value bridge
+    unchanged. The documented losses are exactly the shapes outside this image: integers beyond 64 bits become
+    decimal text (`any_value_wide_int`), records / variants become maps / their payload, non-text keys text. -/
+theorem structure_preserved (a : AnyValue) (h : IntsFit a) : anyValue (embed a) = .ok a :=
+  structure_preserved_value a h
+
 /-! ## OTLP logs -/
 
 /-- FULL STATEMENT (false on the code because of nested map keys): `logRecord e ≠ panic` for every event.
@@ -204,33 +196,6 @@ theorem log_total_partial (e : Event) (h : PropsKeysOk e.deduped) : ∃ r, logRe
   obtain ⟨as, has⟩ := (Enc.isOk_iff _).mp (logAttrs_isOk e.deduped h)
   simp only [has, Enc.bind]
   exact ⟨_, rfl⟩
-
-/-- the hypothesis of `log_total_partial` in terms of the properties as emitted -/
-theorem propsKeysOk_of_props (e : Event) (h : PropsKeysOk e.props) : PropsKeysOk e.deduped := by
-  intro p hp
-  have hk : p.1 ∈ keys e.deduped := List.mem_map.mpr ⟨p, hp, rfl⟩
-  -- a de-duplicated entry is an entry of the original list
-  have : p ∈ e.props := by
-    unfold Event.deduped dedup at hp
-    split at hp
-    · exact hp
-    · have aux : ∀ (ps acc : List (String × PV)), (∀ q ∈ dedupSorted acc ps, q ∈ acc ∨ q ∈ ps) := by
-        intro ps
-        induction ps with
-        | nil => intro acc q hq; simp [dedupSorted] at hq; exact Or.inl hq
-        | cons x rest ih =>
-          intro acc q hq
-          obtain ⟨k, v⟩ := x
-          simp only [dedupSorted] at hq
-          rcases ih _ q hq with h1 | h1
-          · rcases insertFirst_mem k v acc q h1 with h2 | h2
-            · exact Or.inr (by simp [h2])
-            · exact Or.inl h2
-          · exact Or.inr (List.mem_cons_of_mem _ h1)
-      rcases aux e.props [] p hp with h1 | h1
-      · simp at h1
-      · exact h1
-  exact h p this
 
 /-- FULL STATEMENT (false on the code, see `log_exception_key_duplicates`): attribute keys are unique.
     PROVED for events that do not carry a user property `exception.message` / `exception.stacktrace` next to
@@ -325,6 +290,315 @@ theorem log_time_none (e : Event) (r : LogRecord) (h : logRecord e = .ok r) (hx 
   obtain ⟨as, _, h⟩ := (Enc.bind_ok_iff _ _ _).mp h
   cases h
   simp [hx, Extent.point?]
+
+/-! ## OTLP traces -/
+
+/-- a span is encoded exactly for span-kind events with a range extent (everything else is left to the logs
+    signal — C14) -/
+theorem span_encoded_iff (e : Event) :
+    (spanRecord e).isSome = true ↔ e.isKind .span = true ∧ ∃ a b, e.extent = .range a b := by
+  unfold spanRecord
+  by_cases hk : e.isKind .span = true
+  · simp only [hk, if_true, true_and]
+    cases e.extent <;> simp
+  · simp [hk]
+
+/-- FULL STATEMENT (false on the code because of nested map keys): encoding a span never panics.
+    PROVED for events none of whose values contains a nested map key. -/
+theorem span_total_partial (e : Event) (h : PropsKeysOk e.props) (x : Enc SpanRecord)
+    (hx : spanRecord e = some x) : ∃ r, x = .ok r := by
+  unfold spanRecord at hx
+  split at hx
+  · split at hx
+    · rename_i a b _
+      cases hx
+      unfold spanBody
+      have hd := propsKeysOk_of_props e h
+      obtain ⟨as, has⟩ := (Enc.isOk_iff _).mp
+        (plainAttrs_isOk spanLifted e.deduped (fun p hp _ => hd p hp))
+      simp only [spanAttrs, has, Enc.bind]
+      unfold spanErrPart
+      cases herr : (if (e.deduped.map Prod.fst).contains "err" then lookupFirst "err" e.props else none) with
+      | none => exact ⟨_, rfl⟩
+      | some err =>
+        have herr' : lookupFirst "err" e.props = some err := by
+          split at herr
+          · exact herr
+          · cases herr
+        obtain ⟨a', ha'⟩ := (Enc.isOk_iff _).mp ((anyValue_isOk err.image).mpr (keysOk_of_lookup _ h _ _ herr'))
+        simp only [exceptionEvent, ha', Enc.bind]
+        exact ⟨_, rfl⟩
+    · cases hx
+  · cases hx
+
+/-- Attribute keys of a span are unique — for every event (the `exception.*` attributes live in the exception
+    EVENT, not among the span's attributes, so F5 does not arise here). -/
+theorem span_attr_keys_unique (e : Event) (a b : Ts) (r : SpanRecord) (hu : UniqueOk e.unique e.props)
+    (h : spanBody e a b = .ok r) : (keys r.attributes).Nodup := by
+  unfold spanBody at h
+  obtain ⟨as, has, h⟩ := (Enc.bind_ok_iff _ _ _).mp h
+  obtain ⟨x, _, h⟩ := (Enc.bind_ok_iff _ _ _).mp h
+  cases h
+  exact plainAttrs_nodup spanLifted _ _ has (dedup_nodup _ _ hu)
+
+/-- Every property that is not lifted appears among the span's attributes under its key with its FIRST value. -/
+theorem span_prop_once_first_value (e : Event) (a b : Ts) (r : SpanRecord) (k : String) (v : PV)
+    (h : spanBody e a b = .ok r) (hv : lookupFirst k e.props = some v) (hl : spanLifted k = false) :
+    ∃ av, anyValue v.image = .ok av ∧ (k, av) ∈ r.attributes := by
+  unfold spanBody at h
+  obtain ⟨as, has, h⟩ := (Enc.bind_ok_iff _ _ _).mp h
+  obtain ⟨x, _, h⟩ := (Enc.bind_ok_iff _ _ _).mp h
+  cases h
+  have hd : lookupFirst k e.deduped = some v := by
+    unfold Event.deduped; rw [dedup_lookup]; exact hv
+  exact plainAttrs_mem spanLifted _ _ has k v (mem_of_lookupFirst _ _ _ hd) hl
+
+/-- Lifting for spans: ids (trace, span, parent) from the first property of that name, the name from `span_name`
+    (else the message), the scope from the module, the kind unspecified; none of the lifted keys is ALSO an
+    attribute; without `err` the status is the level (Ok for debug/info, Error for warn/error, message = level
+    text) and there is no event. -/
+theorem span_lifting (e : Event) (a b : Ts) (r : SpanRecord) (hu : UniqueOk e.unique e.props)
+    (h : spanBody e a b = .ok r) :
+    r.traceId = (lookupFirst "trace_id" e.props).bind (PV.castId 128) ∧
+    r.spanId = (lookupFirst "span_id" e.props).bind (PV.castId 64) ∧
+    r.parentSpanId = (lookupFirst "span_parent" e.props).bind (PV.castId 64) ∧
+    r.name = nameOr "span_name" e ∧ r.scope = e.mdl ∧ r.kind = 0 ∧
+    (∀ k ∈ keys r.attributes, spanLifted k = false) ∧
+    (lookupFirst "err" e.props = none →
+      let level := ((lookupFirst "lvl" e.props).bind PV.castLevel).getD .info
+      r.events = [] ∧ r.statusMessage = level.display ∧ r.statusCode = levelStatusCode level) := by
+  unfold spanBody at h
+  obtain ⟨as, has, h⟩ := (Enc.bind_ok_iff _ _ _).mp h
+  obtain ⟨x, hx, h⟩ := (Enc.bind_ok_iff _ _ _).mp h
+  cases h
+  have hnd := dedup_nodup e.unique e.props hu
+  have hl : ∀ k, lookupLast k e.deduped = lookupFirst k e.props := by
+    intro k
+    unfold Event.deduped
+    rw [lookupLast_eq_first _ hnd, dedup_lookup]
+  simp only [hl, true_and]
+  refine ⟨?_, ?_⟩
+  · intro k hk
+    rw [plainAttrs_keys spanLifted _ _ has, List.mem_filter] at hk
+    simpa using hk.2
+  · intro hnone
+    unfold spanErrPart at hx
+    simp only [hnone, ite_self, hl] at hx
+    cases hx
+    exact ⟨rfl, rfl, rfl⟩
+
+/-- `err` lifting for spans: the FIRST `err` value gives one `exception` event stamped with the end of the span,
+    carrying `exception.stacktrace` (one `caused by:` line per source, only when there are sources) and
+    `exception.message` (the value through the any-value bridge), and the status Error with the error's Display
+    text (`"{err} ({root cause})"`) as message. -/
+theorem span_err_lifting (e : Event) (a b : Ts) (r : SpanRecord) (err : PV)
+    (h : spanBody e a b = .ok r) (herr : lookupFirst "err" e.props = some err) :
+    ∃ av, anyValue err.image = .ok av ∧ r.statusCode = 2 ∧ r.statusMessage = err.display ∧
+      r.events = [⟨"exception", b.otlpNanos,
+        (match err.error? with
+          | some (_, c :: cs) => [("exception.stacktrace", AnyValue.str (stacktraceText (c :: cs)))]
+          | _ => []) ++ [("exception.message", av)]⟩] := by
+  unfold spanBody at h
+  obtain ⟨as, _, h⟩ := (Enc.bind_ok_iff _ _ _).mp h
+  obtain ⟨x, hx, h⟩ := (Enc.bind_ok_iff _ _ _).mp h
+  cases h
+  have hin : (e.deduped.map Prod.fst).contains "err" = true := by
+    have : "err" ∈ keys e.props := by
+      apply Classical.byContradiction
+      intro hn
+      have := (lookupFirst_none_iff e.props "err").mpr hn
+      simp [herr] at this
+    have := (dedup_keys e.unique e.props "err").mpr this
+    simpa [keys, Event.deduped] using this
+  unfold spanErrPart at hx
+  simp only [hin, if_true, herr] at hx
+  obtain ⟨ev, hev, hx⟩ := (Enc.bind_ok_iff _ _ _).mp hx
+  cases hx
+  unfold exceptionEvent at hev
+  obtain ⟨av, hav, hev⟩ := (Enc.bind_ok_iff _ _ _).mp hev
+  cases hev
+  exact ⟨av, hav, rfl, rfl, rfl⟩
+
+/-- FULL STATEMENT (false for instants ≥ 2^64 ns, F6): start and end are the extent in nanoseconds.
+    PROVED for instants below 2^64 ns. -/
+theorem span_times_partial (e : Event) (a b : Ts) (r : SpanRecord) (h : spanBody e a b = .ok r)
+    (ha : a.unixNanos < 2 ^ 64) (hb : b.unixNanos < 2 ^ 64) :
+    r.startTimeUnixNano = a.unixNanos ∧ r.endTimeUnixNano = b.unixNanos := by
+  unfold spanBody at h
+  obtain ⟨as, _, h⟩ := (Enc.bind_ok_iff _ _ _).mp h
+  obtain ⟨x, _, h⟩ := (Enc.bind_ok_iff _ _ _).mp h
+  cases h
+  simp [Ts.otlpNanos, u64Wrap, Nat.mod_eq_of_lt ha, Nat.mod_eq_of_lt hb]
+
+/-! ## OTLP metrics -/
+
+/-- FULL STATEMENT (false on the code because of nested map keys): encoding a metric never panics.
+    PROVED for events none of whose values contains a nested map key. -/
+theorem metric_total_partial (e : Event) (h : PropsKeysOk e.props) (x : Enc MetricRecord)
+    (hx : metricRecord e = some x) : ∃ r, x = .ok r := by
+  unfold metricRecord at hx
+  split at hx
+  · cases hmv : lookupFirst "metric_value" e.props with
+    | none => simp [hmv] at hx
+    | some value =>
+      simp only [hmv] at hx
+      unfold metricBody at hx
+      have hd := propsKeysOk_of_props e h
+      obtain ⟨as, has⟩ := (Enc.isOk_iff _).mp
+        (plainAttrs_isOk metricLifted e.deduped (fun p hp _ => hd p hp))
+      simp only [metricAttrs, has] at hx
+      cases hep : extractPts false value.image with
+      | none => simp [hep] at hx
+      | some pts =>
+        simp only [hep] at hx
+        split at hx
+        · cases hx
+        · cases hx; exact ⟨_, rfl⟩
+  · cases hx
+
+/-- Attribute keys of every data point are unique — for every event (D8, repaired: the attributes come from the
+    de-duplicated properties). -/
+theorem metric_attr_keys_unique (e : Event) (value : PV) (r : MetricRecord) (hu : UniqueOk e.unique e.props)
+    (h : metricBody e value = some (.ok r)) : ∀ p ∈ r.points, (keys p.attributes).Nodup := by
+  obtain ⟨attrs, pts, data, points, hattrs, _, hmp, rfl⟩ := metricBody_ok e value r h
+  intro p hp
+  rw [metricPoints_attrs _ _ _ _ _ _ _ _ hmp p hp]
+  exact plainAttrs_nodup metricLifted _ _ hattrs (dedup_nodup _ _ hu)
+
+/-- Every property that is not lifted appears on every data point under its key with its FIRST value. -/
+theorem metric_prop_once_first_value (e : Event) (value : PV) (r : MetricRecord) (k : String) (v : PV)
+    (h : metricBody e value = some (.ok r)) (hv : lookupFirst k e.props = some v) (hl : metricLifted k = false) :
+    ∃ av, anyValue v.image = .ok av ∧ ∀ p ∈ r.points, (k, av) ∈ p.attributes := by
+  obtain ⟨attrs, pts, data, points, hattrs, _, hmp, rfl⟩ := metricBody_ok e value r h
+  have hd : lookupFirst k e.deduped = some v := by
+    unfold Event.deduped; rw [dedup_lookup]; exact hv
+  obtain ⟨av, hav, hin⟩ := plainAttrs_mem metricLifted _ _ hattrs k v (mem_of_lookupFirst _ _ _ hd) hl
+  refine ⟨av, hav, ?_⟩
+  intro p hp
+  rw [metricPoints_attrs _ _ _ _ _ _ _ _ hmp p hp]
+  exact hin
+
+/-- Lifting for metrics: name from `metric_name` (else the message), unit from the FIRST `metric_unit`
+    (D8, repaired), scope from the module; none of the lifted keys is an attribute; `sum` / `count` give one
+    sum point (non-monotonic / monotonic) over the extent with the temporality of the extent, anything else a
+    gauge with one point per sample, in order. -/
+theorem metric_lifting (e : Event) (value : PV) (r : MetricRecord) (hu : UniqueOk e.unique e.props)
+    (h : metricBody e value = some (.ok r)) :
+    r.name = nameOr "metric_name" e ∧ r.scope = e.mdl ∧
+    r.unit = (match lookupFirst "metric_unit" e.props with | some u => u.display | none => "") ∧
+    (∀ p ∈ r.points, ∀ k ∈ keys p.attributes, metricLifted k = false) ∧
+    ∃ pts, extractPts false value.image = some pts ∧
+      let agg := (lookupFirst "metric_agg" e.props).bind PV.str?
+      let t := metricTimes e.extent
+      (agg = some "sum" → r.data = .sum t.2.2 false ∧
+        ∃ attrs, r.points = [⟨t.1, t.2.1, sumPts pts, attrs⟩]) ∧
+      (agg = some "count" → r.data = .sum t.2.2 true ∧
+        ∃ attrs, r.points = [⟨t.1, t.2.1, sumPts pts, attrs⟩]) ∧
+      (agg ≠ some "sum" → agg ≠ some "count" → r.data = .gauge ∧ r.points.map (·.value) = pts ∧ pts ≠ []) := by
+  obtain ⟨attrs, pts, data, points, hattrs, hpts, hmp, rfl⟩ := metricBody_ok e value r h
+  have hnd := dedup_nodup e.unique e.props hu
+  have hl : ∀ k, lookupLast k e.deduped = lookupFirst k e.props := by
+    intro k
+    unfold Event.deduped
+    rw [lookupLast_eq_first _ hnd, dedup_lookup]
+  refine ⟨rfl, rfl, ?_, ?_, pts, hpts, ?_⟩
+  · cases hmu : lookupFirst "metric_unit" e.props <;> simp [hl, hmu]
+  · intro p hp k hk
+    rw [metricPoints_attrs _ _ _ _ _ _ _ _ hmp p hp, plainAttrs_keys metricLifted _ _ hattrs,
+      List.mem_filter] at hk
+    simpa using hk.2
+  · unfold metricPoints at hmp
+    refine ⟨?_, ?_, ?_⟩
+    · intro hs
+      simp only [hs, if_true, Option.some.injEq, Prod.mk.injEq] at hmp
+      exact ⟨hmp.1.symm, attrs, hmp.2.symm⟩
+    · intro hc
+      have hcs : ¬ ((some "count" : Option String) = some "sum") := by decide
+      simp only [hc, hcs, if_false, if_true, Option.some.injEq, Prod.mk.injEq] at hmp
+      exact ⟨hmp.1.symm, attrs, hmp.2.symm⟩
+    · intro hns hnc
+      simp only [hns, hnc, if_false, Option.map_eq_some_iff] at hmp
+      obtain ⟨ps, hps, hp⟩ := hmp
+      cases hp
+      refine ⟨rfl, ?_⟩
+      unfold gaugePoints at hps
+      split at hps
+      · cases hps
+      · cases hps; simp
+      · rename_i hne1 hne2
+        cases hps
+        refine ⟨?_, ?_⟩
+        · exact zip_values attrs _ _ (by simp [spreadTimes])
+        · intro hnil; subst hnil; exact hne1 rfl
+
+/-- sums of integer samples are exact while they fit an i64 -/
+theorem sumPts_ints (is : List Int) (acc : Int)
+    (h : ∀ n, n ≤ is.length → inI64 (acc + (is.take n).sum) = true) :
+    (is.map Pt.int).foldl sumStep (.int acc) = .int (acc + is.sum) := by
+  induction is generalizing acc with
+  | nil => simp
+  | cons i rest ih =>
+    have h1 : inI64 (acc + i) = true := by simpa using h 1 (by simp)
+    simp only [List.map_cons, List.foldl_cons, sumStep, h1, if_true, List.sum_cons]
+    rw [ih (acc + i)]
+    · congr 1; omega
+    · intro n hn
+      have := h (n + 1) (by simp; omega)
+      simpa [List.take_succ_cons, List.sum_cons, Int.add_assoc] using this
+
+/-- an integer sum that leaves the i64 range becomes `+inf` (`checked_add` → `f64::INFINITY`) -/
+theorem sumPts_overflow : sumPts [.int (2 ^ 63 - 1), .int 1] = .dbl 0x7FF0000000000000 := by
+  rfl
+
+/-- the points of a gauge partition the extent: consecutive, starting at the start, never past the end -/
+theorem spreadTimes_spec (start time n : Nat) (hle : start ≤ time) :
+    (spreadTimes start time n).length = n ∧
+    (∀ i, (h : i < (spreadTimes start time n).length) →
+      (spreadTimes start time n)[i].1 = start + i * ((time - start) / n) ∧
+      (spreadTimes start time n)[i].2 = start + (i + 1) * ((time - start) / n) ∧
+      (spreadTimes start time n)[i].2 ≤ time) := by
+  refine ⟨by simp [spreadTimes], ?_⟩
+  intro i h
+  have hi : i < n := by simpa [spreadTimes] using h
+  simp only [spreadTimes, List.getElem_map, List.getElem_range, true_and]
+  have h1 : (i + 1) * ((time - start) / n) ≤ n * ((time - start) / n) := Nat.mul_le_mul_right _ (by omega)
+  have h2 : n * ((time - start) / n) ≤ time - start := Nat.mul_div_le _ _
+  omega
+
+/-! ## Terminal writer -/
+
+/-- the exact sparkline index is within the seven blocks: for samples `mn ≤ v ≤ mx` with `mn < mx`,
+    `0 ≤ ⌈(v - mn) / (mx - mn) · 6⌉ ≤ 6`.
+    (`_partial`: the code computes the same expression in IEEE double arithmetic — `blockIndex` — and that
+    function, including its behaviour on NaN / infinite / equal samples, is only SAMPLED by stream c13_term.) -/
+theorem spark_index_le_six_partial (mn mx v : Int) (h1 : mn ≤ v) (h2 : v ≤ mx) (h3 : mn < mx) :
+    0 ≤ blockIndexExact mn mx v ∧ blockIndexExact mn mx v ≤ 6 := by
+  unfold blockIndexExact
+  have hd : 0 < mx - mn := by omega
+  constructor
+  · apply Int.ediv_nonneg <;> omega
+  · have : (v - mn) * 6 + (mx - mn) - 1 < 7 * (mx - mn) := by
+      have : (v - mn) * 6 ≤ (mx - mn) * 6 := Int.mul_le_mul_of_nonneg_right (by omega) (by omega)
+      omega
+    have := Int.ediv_lt_of_lt_mul hd this
+    omega
+
+/-- Without a sequence under `metric_value` the terminal writer never panics, and what it prints contains the
+    line with the rendered message. -/
+theorem term_total_no_sparkline (e : Event) (x : Enc String) (h : termOutput e = some x)
+    (hm : ∀ mv, lookupFirst "metric_value" e.props = some mv → ∀ bs, seqView mv ≠ .seq bs) :
+    ∃ pre post, x = .ok (pre ++ termMsg e.props e.tpl ++ "\n" ++ post) := by
+  unfold termOutput at h
+  simp only at h
+  split at h
+  · cases h; exact ⟨_, _, rfl⟩
+  · rename_i mv hmv
+    split at h
+    · cases h
+    · cases h; exact ⟨_, _, rfl⟩
+    · cases h; exact ⟨_, _, rfl⟩
+    · rename_i bs _ hsv
+      exact absurd hsv (hm mv hmv _)
 
 /-! ## non-vacuity of the hypotheses -/
 
